@@ -1,6 +1,8 @@
 import PhysisModel.Proofs.ExcelIndex
 import PhysisModel.Generated.ExcelCodes
 import PhysisModel.Proofs.ExcelRootList
+import PhysisModel.Proofs.ExcelArchive
+import PhysisModel.Spec.Deflate
 /-!
 # C05 — Excel sheets decode to the cell values stored in them
 
@@ -243,6 +245,348 @@ theorem c05_sheet_lookup_rootlist (extract : Bytes → Option Bytes) (v : Int)
 /-- non-vacuity: a root list with a negative id, a name containing `/`, and one starting lower-case -/
 example : WFrootList 2 [([0x41, 0x2f, 0x62], -1), ([0x69, 0x74, 0x65, 0x6d], 2147483647)] := by
   decide
+
+/-! ## Sheets stored in a (synthetic) archive
+
+Setting as in C01 / C02: `a : Archive` describes the index files of an installation, `disk` is any
+file system that `Realises` it, `fresh a` is the handle `GameData::from_existing` returns,
+`runCalls inflate disk (fresh a) cs` the handle after any history `cs` of calls (plain
+`exists` / `find_offset` / `extract` queries and the three Excel entry points, in any order).
+`StoresStd inflate disk a p content` (`Proofs/ExcelArchive.lean`): the index entry that `locate`
+finds for the game path `p` points at a packed standard entry (`Spec/SqPackData.packStandard`,
+any split into blocks, each raw or deflated) whose content is `content`.
+Results are `some (some v)`: no panic, `Some(v)`.  The model of the glue is
+`Model/GameDataExcel.lean`; `inflate` (zlib) is a parameter constrained only on the deflated
+blocks, as in C02.
+-/
+section archive
+open Physis.GameData Physis.Spec.Archive Physis.Str
+
+/-- every history of calls on a handle — plain archive queries and Excel entry points mixed —
+leaves it in a state some history of plain queries produces (only the index-file cache persists),
+so "after any history" below is exactly C01's notion -/
+theorem c05_calls_are_queries (inflate : Dat.Inflate) (disk : Disk) (g : GameData.GameData) (cs : List Call) :
+    ∃ qs, runCalls inflate disk g cs = run disk g qs := runCalls_is_run inflate disk g cs
+
+private theorem extractFull_stored (inflate : Dat.Inflate) (disk : Disk) (a : Archive)
+    (hr : Realises disk a) (hw : a.WF) (p content : Bytes) (h : StoresStd inflate disk a p content)
+    (qs : List Query) :
+    extractFull inflate disk (run disk (fresh a) qs) p =
+      (some (some content), run disk (fresh a) (qs ++ [.extract p])) := by
+  rw [pair_eta (extractFull inflate disk (run disk (fresh a) qs) p),
+    extract_stored inflate disk a hr hw p content h qs, extractFull_snd_run, run_append]
+
+private theorem extractFull_absent (inflate : Dat.Inflate) (disk : Disk) (a : Archive)
+    (hr : Realises disk a) (hw : a.WF) (p : Bytes) (h : locate a p = none) (qs : List Query) :
+    extractFull inflate disk (run disk (fresh a) qs) p =
+      (some none, run disk (fresh a) (qs ++ [.extract p])) := by
+  rw [pair_eta (extractFull inflate disk (run disk (fresh a) qs) p),
+    extract_absent inflate disk a hr hw p h qs, extractFull_snd_run, run_append]
+
+/-- `GameData::get_all_sheet_names` on an installation that stores the encoded root list under
+`exd/root.exl` returns exactly the listed names, in order — after any history. -/
+theorem c05_names_from_archive (inflate : Dat.Inflate) (disk : Disk) (a : Archive)
+    (hr : Realises disk a) (hw : a.WF) (v : Int) (es : List (Bytes × Int)) (hroot : WFrootList v es)
+    (h1 : StoresStd inflate disk a rootListPath (encodeRootList v es)) (cs : List Call) :
+    (getAllSheetNames inflate disk (runCalls inflate disk (fresh a) cs)).1 = some (some (es.map (·.1))) := by
+  obtain ⟨qs, hq⟩ := runCalls_is_run inflate disk (fresh a) cs
+  rw [hq]
+  simp only [getAllSheetNames, extractFull_stored inflate disk a hr hw _ _ h1 qs,
+    (c05_sheet_names v es hroot).1, allSheetNames]
+
+/-- `GameData::read_excel_sheet_header(name)` for a listed name (as spelled in the root list,
+upper-case letters and sub-directories included) whose encoded header is stored under
+`exd/<lower-case name>.exh` returns the schema — after any history. -/
+theorem c05_header_from_archive (inflate : Dat.Inflate) (disk : Disk) (a : Archive)
+    (hr : Realises disk a) (hw : a.WF) (v : Int) (es : List (Bytes × Int)) (hroot : WFrootList v es)
+    (name : Bytes) (hname : name ∈ es.map (·.1)) (s : Schema) (hs : WFschema s)
+    (h1 : StoresStd inflate disk a rootListPath (encodeRootList v es))
+    (h2 : StoresStd inflate disk a (headerPath name) (encodeExh s)) (cs : List Call) :
+    (readExcelSheetHeader inflate disk (runCalls inflate disk (fresh a) cs) name).1 =
+      some (some (toExh s)) := by
+  obtain ⟨qs, hq⟩ := runCalls_is_run inflate disk (fresh a) cs
+  rw [hq]
+  have hfind : ∃ e, es.find? (fun e => e.1 == name) = some e := by
+    cases hf : es.find? (fun e => e.1 == name) with
+    | some e => exact ⟨e, rfl⟩
+    | none =>
+      exfalso
+      obtain ⟨e, he, rfl⟩ := List.mem_map.mp hname
+      have := List.find?_eq_none.mp hf e he
+      simp at this
+  obtain ⟨e, hfind⟩ := hfind
+  have h2' : StoresStd inflate disk a (sheetHeaderPath name) (encodeExh s) := h2
+  simp only [GameData.readExcelSheetHeader, extractFull_stored inflate disk a hr hw _ _ h1 qs,
+    (c05_sheet_names v es hroot).1, hfind, extractFull_stored inflate disk a hr hw _ _ h2',
+    exh_roundtrip s hs]
+
+/-- `GameData::read_excel_sheet(name, exh, language, k)` with the schema's header, when the encoded
+page is stored under the lower-cased `exd/<name>_<start id of page k>[_<language code>].exd`,
+returns the page (index of every row; data view = the file) — after any history.  The name is
+passed on as spelled; the archive lookup ignores letter case (`storesStd_lower`: storing under the
+lower-cased path and under the spelled path are the same thing). -/
+theorem c05_page_from_archive (inflate : Dat.Inflate) (disk : Disk) (a : Archive)
+    (hr : Realises disk a) (hw : a.WF) (name : Bytes) (s : Schema) (k : Nat) (hk : k < s.pages.length)
+    (l : Lang) (rows : List Row) (hrows : WFrows s rows)
+    (h3 : StoresStd inflate disk a (lower (pagePath name l s.pages[k])) (encodeExd s rows))
+    (cs : List Call) :
+    (GameData.readExcelSheet inflate disk (runCalls inflate disk (fresh a) cs) name (toExh s)
+      (toModelLang l) k).1 = some (some (toExd s rows)) := by
+  obtain ⟨qs, hq⟩ := runCalls_is_run inflate disk (fresh a) cs
+  rw [hq]
+  have hp : (toExh s).pages[k]? = some (toModelPage s.pages[k]) := by
+    simp [toExh, hk]
+  have h3' : StoresStd inflate disk a (sheetPagePath name (toModelLang l) (toModelPage s.pages[k]))
+      (encodeExd s rows) := by
+    rw [sheetPagePath, c05_filename]
+    exact (storesStd_lower inflate disk a _ _).mp h3
+  simp only [GameData.readExcelSheet, hp, extractFull_stored inflate disk a hr hw _ _ h3' qs,
+    c05_exd_index_roundtrip s rows hrows]
+
+/-- **End to end.**  For a well-formed installation that stores the root list, the header and a
+page of a well-formed sheet under the names the root list, the sheet name, the page's start id and
+the language imply: after any history on the handle, `read_excel_sheet_header(name)` returns a
+header `exh`; after any (other) history `read_excel_sheet(name, &exh, language, k)` returns a page
+`exd`; and `exd.read_row(&exh, id)` returns, for every stored row outside the class of the open
+finding `exd.single-subrow`, one record per stored sub-row with the stored cells column by
+column, and `None` for an id the page does not store. -/
+theorem c05_sheet_from_archive (inflate : Dat.Inflate) (disk : Disk) (a : Archive)
+    (hr : Realises disk a) (hw : a.WF) (v : Int) (es : List (Bytes × Int)) (hroot : WFrootList v es)
+    (name : Bytes) (hname : name ∈ es.map (·.1)) (s : Schema) (hs : WFschema s)
+    (k : Nat) (hk : k < s.pages.length) (l : Lang) (rows : List Row) (hrows : WFrows s rows)
+    (h1 : StoresStd inflate disk a rootListPath (encodeRootList v es))
+    (h2 : StoresStd inflate disk a (headerPath name) (encodeExh s))
+    (h3 : StoresStd inflate disk a (lower (pagePath name l s.pages[k])) (encodeExd s rows))
+    (cs1 cs2 : List Call) :
+    ∃ exh exd,
+      (readExcelSheetHeader inflate disk (runCalls inflate disk (fresh a) cs1) name).1 = some (some exh) ∧
+      (GameData.readExcelSheet inflate disk (runCalls inflate disk (fresh a) cs2) name exh
+        (toModelLang l) k).1 = some (some exd) ∧
+      (∀ r ∈ rows, singleSubrow s r = false → readRow exd exh r.id = .ok (r.subs.map (·.map toData))) ∧
+      (∀ id, id ∉ rows.map (·.id) → readRow exd exh id = .error .none) := by
+  refine ⟨toExh s, toExd s rows,
+    c05_header_from_archive inflate disk a hr hw v es hroot name hname s hs h1 h2 cs1,
+    c05_page_from_archive inflate disk a hr hw name s k hk l rows hrows h3 cs2, ?_, ?_⟩
+  · intro r hmem hns
+    obtain ⟨exh, exd, e1, e2, e3⟩ := c05_read_row_partial s rows hs hrows r hmem hns
+    rw [exh_roundtrip s hs] at e1
+    rw [c05_exd_index_roundtrip s rows hrows] at e2
+    cases e1; cases e2
+    exact e3
+  · intro id hid
+    obtain ⟨exh, exd, e1, e2, e3⟩ := c05_read_row_unknown s rows hs hrows id hid
+    rw [exh_roundtrip s hs] at e1
+    rw [c05_exd_index_roundtrip s rows hrows] at e2
+    cases e1; cases e2
+    exact e3
+
+/-- Only what is stored is found: a name the root list does not contain yields `None` (and the
+archive is asked for nothing but the root list); a listed name whose header path the archive does
+not store yields `None`; a page whose path is not stored yields `None` — never a panic, after any
+history. -/
+theorem c05_sheet_not_stored (inflate : Dat.Inflate) (disk : Disk) (a : Archive)
+    (hr : Realises disk a) (hw : a.WF) (v : Int) (es : List (Bytes × Int)) (hroot : WFrootList v es)
+    (h1 : StoresStd inflate disk a rootListPath (encodeRootList v es)) (name : Bytes) (cs : List Call) :
+    (name ∉ es.map (·.1) →
+      ∃ qs, runCalls inflate disk (fresh a) cs = run disk (fresh a) qs ∧
+        readExcelSheetHeader inflate disk (runCalls inflate disk (fresh a) cs) name =
+          (some none, run disk (fresh a) (qs ++ [.extract rootListPath]))) ∧
+    (locate a (headerPath name) = none →
+      (readExcelSheetHeader inflate disk (runCalls inflate disk (fresh a) cs) name).1 = some none) ∧
+    (∀ (s : Schema) (k : Nat) (_ : k < s.pages.length) (l : Lang),
+      locate a (pagePath name l s.pages[k]) = none →
+      (GameData.readExcelSheet inflate disk (runCalls inflate disk (fresh a) cs) name (toExh s)
+        (toModelLang l) k).1 = some none) := by
+  obtain ⟨qs, hq⟩ := runCalls_is_run inflate disk (fresh a) cs
+  refine ⟨fun hn => ⟨qs, hq, ?_⟩, fun hl => ?_, fun s k hk l hl => ?_⟩
+  · have hfind : es.find? (fun e => e.1 == name) = none := by
+      apply List.find?_eq_none.mpr
+      intro e he hb
+      simp only [beq_iff_eq] at hb
+      exact hn (List.mem_map.mpr ⟨e, he, hb⟩)
+    rw [hq]
+    simp only [GameData.readExcelSheetHeader, extractFull_stored inflate disk a hr hw _ _ h1 qs,
+      (c05_sheet_names v es hroot).1, hfind]
+  · rw [hq]
+    have hl' : locate a (sheetHeaderPath name) = none := hl
+    simp only [GameData.readExcelSheetHeader, extractFull_stored inflate disk a hr hw _ _ h1 qs,
+      (c05_sheet_names v es hroot).1]
+    cases es.find? (fun e => e.1 == name) with
+    | none => rfl
+    | some e => simp only [extractFull_absent inflate disk a hr hw _ hl']
+  · rw [hq]
+    have hp : (toExh s).pages[k]? = some (toModelPage s.pages[k]) := by
+      simp [toExh, hk]
+    have hl' : locate a (sheetPagePath name (toModelLang l) (toModelPage s.pages[k])) = none := by
+      rw [sheetPagePath, c05_filename]; exact hl
+    simp only [GameData.readExcelSheet, hp, extractFull_absent inflate disk a hr hw _ hl']
+
+/-- The handle-level glue and the abstract-`extract` model of `c05_sheet_lookup` /
+`c05_page_lookup` are two models of the same Rust functions; they agree: with `ex` = what
+`extract` returns on the handle at the moment of each call (no panic), the header call is
+`Exd.readExcelSheetHeader ex` on the parsed root list and the page call is `Exd.readExcelSheet ex`. -/
+theorem c05_glue_agrees_with_lookup (inflate : Dat.Inflate) (disk : Disk) (g : GameData.GameData)
+    (name : Bytes) (ex : Bytes → Option Bytes) :
+    (∀ root,
+      (extractFull inflate disk g rootListPath).1 = some (some root) →
+      (extractFull inflate disk (extractFull inflate disk g rootListPath).2 (sheetHeaderPath name)).1
+        = some (ex (sheetHeaderPath name)) →
+      (GameData.readExcelSheetHeader inflate disk g name).1 =
+        some (Exd.readExcelSheetHeader ex (ExcelRootList.fromExisting root).entries name)) ∧
+    (∀ (exh : Exh.EXH) (language : Exh.Language) (page : Nat),
+      (∀ pg, exh.pages[page]? = some pg →
+        (extractFull inflate disk g (sheetPagePath name language pg)).1
+          = some (ex (sheetPagePath name language pg))) →
+      (GameData.readExcelSheet inflate disk g name exh language page).1 =
+        match Exd.readExcelSheet ex name exh language page with
+        | .ok exd => some (some exd)
+        | .error .none => some none
+        | .error .panic => none) := by
+  constructor
+  · intro root h1 h2
+    unfold GameData.readExcelSheetHeader Exd.readExcelSheetHeader
+    generalize extractFull inflate disk g rootListPath = r at h1 h2
+    obtain ⟨res, g1⟩ := r
+    simp only [] at h1 h2
+    subst h1
+    simp only []
+    cases (ExcelRootList.fromExisting root).entries.find? (fun e => e.1 == name) with
+    | none => rfl
+    | some e =>
+      simp only []
+      generalize extractFull inflate disk g1 (sheetHeaderPath name) = r2 at h2
+      obtain ⟨res2, g2⟩ := r2
+      simp only [] at h2
+      subst h2
+      cases ex (sheetHeaderPath name) <;> rfl
+  · intro exh language page h
+    unfold GameData.readExcelSheet Exd.readExcelSheet
+    cases hp : exh.pages[page]? with
+    | none => rfl
+    | some pg =>
+      have h' := h pg hp
+      simp only []
+      generalize extractFull inflate disk g (sheetPagePath name language pg) = r at h'
+      obtain ⟨res, g1⟩ := r
+      simp only [] at h'
+      subst h'
+      simp only [sheetPagePath]
+      cases hx : ex ([0x65, 0x78, 0x64, 0x2f] ++ calculateFilename name language pg) with
+      | none => rfl
+      | some buf =>
+        simp only [Option.bind_some]
+        cases Exd.fromExisting buf <;> rfl
+
+/-! ### non-vacuity: a concrete installation -/
+section
+open Physis.Spec.SqPackData
+/-- "Quest/Item" -/
+def xName : Bytes := [0x51, 0x75, 0x65, 0x73, 0x74, 0x2f, 0x49, 0x74, 0x65, 0x6d]
+def xRoot : List (Bytes × Int) := [([0x41], 1), (xName, -2)]
+
+/-- root list in two raw blocks -/
+def xB1 : List Block :=
+  [⟨(encodeRootList 2 xRoot).take 7, none⟩, ⟨(encodeRootList 2 xRoot).drop 7, none⟩]
+/-- header: a raw block and a deflated one (RFC 1951 stored stream) -/
+def xB2 : List Block :=
+  [⟨(encodeExh dSchema).take 10, none⟩,
+   ⟨(encodeExh dSchema).drop 10, some (Spec.Deflate.storedBlock ((encodeExh dSchema).drop 10))⟩]
+def xB3 : List Block := [⟨encodeExd dSchema dRows, none⟩]
+
+def xDat : Bytes := packStandard xB1 ++ packStandard xB2 ++ packStandard xB3
+
+/-- `exd/quest/item_0_en.exd` -/
+def xPagePath : Bytes := lower (pagePath xName .en ⟨0, 2⟩)
+
+def xIndex : IndexFile :=
+  { platform := .win32, kind := .index2,
+    entries := [⟨.full (jamcrc rootListPath), false, 0, 0⟩,
+                ⟨.full (jamcrc (headerPath xName)), false, 0, 384⟩,
+                ⟨.full (jamcrc xPagePath), false, 0, 768⟩],
+    dataSeg := [], folderSeg := [] }
+
+def xArch : Archive := { platform := .win32, dirs := [baseDir], slot := fun _ _ _ _ => .file xIndex }
+def xDatName : Bytes := datName .win32 0 .exd 0 0
+def xDisk : Disk := fun _ n => if n = xDatName then some xDat else some (encodeIndex xIndex)
+
+/-- the three entries sit at offsets 0, 384, 768 of the dat file -/
+example : (packStandard xB1).length = 384 ∧ (packStandard xB2).length = 384 := by decide +kernel
+private theorem xIndex_wf : xIndex.wf = true := by decide +kernel
+private theorem xArch_wf : xArch.WF := ⟨by decide, fun _ _ _ _ _ _ => xIndex_wf⟩
+
+private theorem indexName_ne (e : Nat) (c : Category) (ch : Nat) (k : Kind) :
+    indexName .win32 e c ch k ≠ xDatName := by
+  intro h
+  have h2 : (indexName .win32 e c ch k).getLast? = xDatName.getLast? := by rw [h]
+  have h3 : xDatName.getLast? = some 48 := by decide +kernel
+  rw [h3] at h2
+  cases k <;> simp [indexName] at h2
+
+private theorem xRealises : Realises xDisk xArch := by
+  intro e c ch k _ _
+  simp only [xDisk, xArch, indexName_ne, if_false, Slot.bytes]
+
+
+private theorem xDeflated : ∀ bs ∈ [xB1, xB2, xB3], ∀ b ∈ bs, Dat.Deflated C02.storedInflate b := by
+  intro bs hbs b hb c hc
+  simp only [List.mem_cons, List.mem_nil_iff, or_false] at hbs
+  rcases hbs with rfl | rfl | rfl <;>
+    simp only [xB1, xB2, xB3, List.mem_cons, List.mem_nil_iff, or_false] at hb
+  · rcases hb with rfl | rfl <;> cases hc
+  · rcases hb with rfl | rfl
+    · cases hc
+    · cases hc; decide +kernel
+  · subst hb; cases hc
+
+private theorem xStores1 : StoresStd C02.storedInflate xDisk xArch rootListPath (encodeRootList 2 xRoot) :=
+  ⟨⟨0, .exd, 0, 0, 0⟩, xB1, [], packStandard xB2 ++ packStandard xB3, by decide +kernel, by decide +kernel,
+    xDeflated xB1 (by simp), rfl, by decide +kernel, by decide +kernel, by decide +kernel⟩
+
+private theorem xStores2 : StoresStd C02.storedInflate xDisk xArch (headerPath xName) (encodeExh dSchema) :=
+  ⟨⟨0, .exd, 0, 0, 384⟩, xB2, packStandard xB1, packStandard xB3, by decide +kernel, by decide +kernel,
+    xDeflated xB2 (by simp), by decide +kernel, by decide +kernel, by decide +kernel, by decide +kernel⟩
+
+private theorem xStores3 : StoresStd C02.storedInflate xDisk xArch (lower (pagePath xName .en dSchema.pages[0]))
+    (encodeExd dSchema dRows) :=
+  ⟨⟨0, .exd, 0, 0, 768⟩, xB3, packStandard xB1 ++ packStandard xB2, [], by decide +kernel, by decide +kernel,
+    xDeflated xB3 (by simp), by decide +kernel, by decide +kernel, by decide +kernel, by decide +kernel⟩
+
+
+/-- non-vacuity of `c05_sheet_from_archive` (and of `c05_names_from_archive`,
+`c05_header_from_archive`, `c05_page_from_archive`): an installation whose `0a0000.win32.dat0`
+holds the root list (two raw blocks), the header of `dSchema` (a raw and a deflated block) and its
+English page 0 — sheet name `Quest/Item`, stored under `exd/quest/item.exh` and
+`exd/quest/item_0_en.exd` — satisfies every hypothesis; hence after any two histories the header
+and the page come back and both rows of `dRows` read back cell by cell. -/
+example (cs1 cs2 : List Call) :
+    ∃ exh exd,
+      (readExcelSheetHeader C02.storedInflate xDisk (runCalls C02.storedInflate xDisk (fresh xArch) cs1) xName).1
+        = some (some exh) ∧
+      (GameData.readExcelSheet C02.storedInflate xDisk (runCalls C02.storedInflate xDisk (fresh xArch) cs2) xName exh
+        (toModelLang .en) 0).1 = some (some exd) ∧
+      (∀ r ∈ dRows, singleSubrow dSchema r = false → readRow exd exh r.id = .ok (r.subs.map (·.map toData))) ∧
+      (∀ id, id ∉ dRows.map (·.id) → readRow exd exh id = .error .none) :=
+  c05_sheet_from_archive C02.storedInflate xDisk xArch xRealises xArch_wf 2 xRoot (by decide) xName
+    (by decide) dSchema (by decide) 0 (by decide) .en dRows (by decide +kernel) xStores1 xStores2 xStores3 cs1 cs2
+
+/-- non-vacuity of `c05_glue_agrees_with_lookup` (header part): on the fresh handle of `xArch` both
+`extract` hypotheses hold, with `ex` = "the header of `dSchema`" -/
+example :
+    (extractFull C02.storedInflate xDisk (fresh xArch) rootListPath).1 = some (some (encodeRootList 2 xRoot)) ∧
+    (extractFull C02.storedInflate xDisk (extractFull C02.storedInflate xDisk (fresh xArch) rootListPath).2
+      (sheetHeaderPath xName)).1 = some ((fun _ => some (encodeExh dSchema)) (sheetHeaderPath xName)) := by
+  constructor
+  · exact extract_stored _ _ _ xRealises xArch_wf _ _ xStores1 []
+  · rw [extractFull_snd_run]
+    exact extract_stored _ _ _ xRealises xArch_wf _ _ xStores2 [.extract rootListPath]
+
+/-- non-vacuity of `c05_sheet_not_stored`: `B` is not listed; the German page is not stored -/
+example : ([0x42] : Bytes) ∉ xRoot.map (·.1) ∧ locate xArch (headerPath [0x42]) = none ∧
+    locate xArch (pagePath xName .de dSchema.pages[0]) = none := by decide +kernel
+
+end
+
+end archive
 
 /-- (T2) The model's code tables are the compiled reader's: the harness pushes **every** u16 /
 u8 through the compiled `EXH::from_existing` as a column-type / language code and dumps the accepted
